@@ -909,7 +909,7 @@ type vfPeek struct {
 	RecvQ                            int
 	MyRwnd                           uint32
 	ReasmBytes                       int
-	InFR                             bool
+	InFR, TLR                        bool
 	T3, NStreams                     int
 	SRTT                             float64
 }
@@ -921,7 +921,7 @@ func vfPeekAssoc(a *Association) vfPeek {
 		InflightBytes: a.inflightQueue.getNumBytes(), InflightN: a.inflightQueue.size(),
 		PendingBytes: a.pendingQueue.getNumBytes(), PendingN: a.pendingQueue.size(),
 		CumAck: a.cumulativeTSNAckPoint, NextTSN: a.myNextTSN, PeerLast: a.peerLastTSN(), AdvPt: a.advancedPeerTSNAckPoint,
-		RecvQ: a.payloadQueue.size(), MyRwnd: a.getMyReceiverWindowCredit(), InFR: a.inFastRecovery,
+		RecvQ: a.payloadQueue.size(), MyRwnd: a.getMyReceiverWindowCredit(), InFR: a.inFastRecovery, TLR: a.tlrActive,
 		T3: int(a.stats.getNumT3Timeouts()), NStreams: len(a.streams), SRTT: a.SRTT()}
 	for _, st := range a.streams {
 		p.ReasmBytes += st.getNumBytesInReassemblyQueue()
